@@ -6,6 +6,8 @@ that generated templates are well-formed by construction.
 """
 from __future__ import annotations
 
+import copy
+
 from hypothesis import strategies as st
 
 from vlib import values
@@ -32,6 +34,8 @@ class Ctx:
         self.seqs = list(SEQ_VARS)
         self.switch_depth = 0
         self.case_bias = False
+        self.def_stack = []
+        self.rep_stack = []
         self.n_elems = 0
         self.eid = 0
 
@@ -290,6 +294,12 @@ def text_node(ctx, interp_p=2):
             parts.append(["interp", ["pipe", [
                 ["var", d(st.sampled_from(GLOBALS))], ["const", "'nog'"]]]])
             continue
+        if ctx.opts.get("local_probes") and d(st.integers(0, 5)) == 0:
+            # ... and a local one, or a loop variable (not after its element)
+            parts.append(["interp", ["pipe", [
+                ["var", d(st.sampled_from(LOCALS + LOOPVARS))],
+                ["const", "'nol'"]]]])
+            continue
         if ctx.opts.get("repeat_probes") and d(st.integers(0, 5)) == 0:
             # state of a loop as seen from anywhere (also outside the loop)
             parts.append(["interp", ["pipe", [
@@ -406,7 +416,10 @@ def element(ctx, depth):
             chosen.remove("switch")
     saved_scalars = list(ctx.scalars)
     saved_seqs = list(ctx.seqs)
-    if "define" in chosen:
+    if "define" in chosen and ctx.def_stack and d(st.integers(0, 3)) == 0:
+        # the very text of an enclosing element's statement once more
+        stmts["define"] = copy.deepcopy(ctx.def_stack[-1])
+    elif "define" in chosen:
         defs = []
         for _ in range(d(st.integers(1, 3))):
             scope = d(st.sampled_from(["local", "local", "local!", "global"]))
@@ -442,7 +455,10 @@ def element(ctx, depth):
         stmts["case"] = e
     if "condition" in chosen:
         stmts["condition"] = rec(ctx, "c", scalar_expr(ctx), "bool")
-    if "repeat" in chosen:
+    if "repeat" in chosen and ctx.rep_stack and ctx.rep_stack[-1] and \
+            d(st.integers(0, 3)) == 0:
+        stmts["repeat"] = copy.deepcopy(ctx.rep_stack[-1])
+    elif "repeat" in chosen:
         if d(st.integers(0, 5)) == 0:
             names = ["i0", "i1"]
             e = ["const", d(st.sampled_from(
@@ -554,6 +570,16 @@ def element(ctx, depth):
     has_switch = "switch" in stmts
     if has_switch:
         ctx.switch_depth += 1
+    pushed_def = "define" in stmts
+    if pushed_def:
+        ctx.def_stack.append(stmts["define"])
+    pushed_rep = "repeat" in stmts
+    if pushed_rep:
+        # (a loop variable named like its sequence cannot be looped over
+        # again: nothing below such an element copies a repeat statement)
+        ctx.rep_stack.append(
+            None if stmts["repeat"][0][0] not in LOOPVARS + ["i0"]
+            else stmts["repeat"])
     budget = ctx.opts.get("max_elems", 14)
     if depth > 0 and not (d(st.integers(0, 6)) == 0):
         kids = []
@@ -594,6 +620,10 @@ def element(ctx, depth):
             el["children"] = [text_node(ctx)] if d(st.booleans()) else []
     if has_switch:
         ctx.switch_depth -= 1
+    if pushed_def:
+        ctx.def_stack.pop()
+    if pushed_rep:
+        ctx.rep_stack.pop()
     ctx.scalars = saved_scalars
     ctx.seqs = saved_seqs
     ctx.eid = outer_eid
